@@ -34,6 +34,10 @@ Definition pc_code (cl : bool) (p : pc) : Z :=
   | TAdd _ => 74
   | TDetach _ => 75
   | RSurplus _ => 76
+  | OResizeL _ => 80
+  | OCloseL => 81
+  | OStatusL | ORetainS _ => 82
+  | ORetainL _ => 83
   | PDone r => 100 + res_code r
   end.
 
